@@ -15,6 +15,7 @@ import (
 	"bytes"
 	"fmt"
 	"io"
+	"math"
 	"net/http"
 	"testing"
 	"testing/synctest"
@@ -91,6 +92,14 @@ type c10mStream struct {
 	avail    int64
 	unsent   int64
 	wantRead int64
+
+	ended bool // the client ended the stream (END_STREAM / trailers): the server no longer accepts DATA on it
+
+	// Only while the client is not reading (BLK … UNB):
+	resetQueued bool  // the server answered a stream error with a RST_STREAM that is queued behind a stuck write: the stream stays in its table, DATA for it is discarded
+	doneQueued  bool  // the handler returned or panicked, the end of the response is queued behind a stuck write: the stream stays in the table
+	unseen      bool  // the server closed or reset the stream but the client cannot have seen it yet: it still considers the stream open
+	pendView    int64 // stream-level WINDOW_UPDATE credit the client has not read yet
 }
 
 type c10Model struct {
@@ -100,6 +109,11 @@ type c10Model struct {
 	goaway          int // 0 none, 1 graceful, 2 error
 	terminal        bool
 	s               [2]c10mStream
+
+	blocked  bool  // the client is not reading (BLK … UNB): nothing the server writes is visible to it
+	stuck    bool  // … and the server has written something since: its writer is stuck, later frames queue behind it
+	pinged   bool  // a PING was sent in this blocked period
+	pendConn int64 // connection-level WINDOW_UPDATE credit the client has not read yet
 }
 
 func c10NewModel(cfg c08srvCfg) *c10Model {
@@ -108,27 +122,143 @@ func c10NewModel(cfg c08srvCfg) *c10Model {
 	return m
 }
 
-func c10mAdd(avail, unsent *int64, view *int64, n int64) {
+// c10mAdd is inflow.add; it reports whether a WINDOW_UPDATE is written.
+func c10mAdd(avail, unsent *int64, view *int64, n int64) bool {
 	*unsent += n
 	if *unsent < 4096 && *unsent < *avail {
-		return
+		return false
 	}
+	wrote := *unsent > 0
 	*avail += *unsent
 	*view += *unsent
 	*unsent = 0
+	return wrote
 }
 
-func (m *c10Model) connAdd(n int64) { c10mAdd(&m.cAvail, &m.cUnsent, &m.connView, n) }
+// wrote: the server handed a frame to its writer. While the client is not
+// reading, the first such frame still fits the server's write buffer; its
+// flush gets stuck and everything after it queues.
+func (m *c10Model) wrote() {
+	if m.blocked {
+		m.stuck = true
+	}
+}
 
+func (m *c10Model) connAdd(n int64) {
+	view := &m.connView
+	if m.blocked {
+		view = &m.pendConn
+	}
+	if c10mAdd(&m.cAvail, &m.cUnsent, view, n) {
+		m.wrote()
+	}
+}
+
+func (m *c10Model) strAdd(s *c10mStream, n int64) {
+	view := &s.view
+	if m.blocked {
+		view = &s.pendView
+	}
+	if c10mAdd(&s.avail, &s.unsent, view, n) {
+		m.wrote()
+	}
+}
+
+// closeStream: the server removes the stream from its table. The client
+// learns about it at once, unless it is not reading.
 func (m *c10Model) closeStream(s *c10mStream) {
 	if !s.table {
 		return
 	}
 	s.table = false
-	s.cliOpen = false
+	s.resetQueued, s.doneQueued = false, false
+	if m.blocked {
+		s.unseen = true
+	} else {
+		s.cliOpen = false
+	}
 	m.connAdd(s.buffered)
 	s.pipeErr = true
 	m.wake(s)
+}
+
+// srvReset: the server answers with RST_STREAM and closes the stream once
+// the frame is written; with a stuck writer the stream stays in the table,
+// marked, until the client reads again.
+func (m *c10Model) srvReset(s *c10mStream) {
+	if !s.table || s.resetQueued {
+		return
+	}
+	if m.stuck {
+		s.resetQueued = true
+		s.unseen = true
+		s.pipeErr = true
+		m.wake(s)
+		return
+	}
+	m.wrote()
+	m.closeStream(s)
+}
+
+// dataWhileBlocked is the DATA transition while the client is not reading.
+// What the client knows (cliOpen, view: it has seen no reset and no
+// WINDOW_UPDATE since BLK) and what the server does (table, ended,
+// resetQueued) are tracked separately here.
+func (m *c10Model) dataWhileBlocked(s *c10mStream, ln, fl int64, end bool) {
+	if s.cliOpen {
+		s.view -= fl // the client counts the frame against the stream window it sees
+	}
+	if end {
+		s.cliOpen = false
+	}
+	if m.goaway == 2 || !s.table || s.ended || s.resetQueued {
+		m.connAdd(fl)
+		if s.table && m.goaway != 2 {
+			m.srvReset(s) // RST_STREAM(STREAM_CLOSED), unless one is queued already
+		}
+		return
+	}
+	if s.cl >= 0 && s.recv+ln > s.cl {
+		m.connAdd(fl)
+		m.srvReset(s)
+		return
+	}
+	s.avail -= fl
+	if s.closed && ln > 0 {
+		m.connAdd(fl)
+		if end {
+			s.quirk = true
+		}
+		return
+	}
+	s.recv += ln
+	s.buffered += ln
+	m.connAdd(fl - ln)
+	m.strAdd(s, fl-ln)
+	if end {
+		s.ended = true
+		s.pipeErr = true
+	}
+	m.wake(s)
+}
+
+// unblock: the client reads again; everything queued is written and seen.
+func (m *c10Model) unblock() {
+	m.blocked, m.stuck, m.pinged = false, false, false
+	for i := range m.s {
+		s := &m.s[i]
+		if s.resetQueued || s.doneQueued {
+			m.closeStream(s)
+		}
+		if s.unseen {
+			s.unseen = false
+			s.cliOpen = false
+		}
+		s.view += s.pendView
+		s.pendView = 0
+	}
+	m.connView += m.pendConn
+	m.pendConn = 0
 }
 
 // wake lets a handler blocked in Read proceed if it can.
@@ -150,7 +280,7 @@ func (m *c10Model) read(s *c10mStream, n int64) {
 	if s.table {
 		m.connAdd(k)
 		if s.cliOpen {
-			c10mAdd(&s.avail, &s.unsent, &s.view, k)
+			m.strAdd(s, k)
 		}
 	}
 }
@@ -251,6 +381,15 @@ func (m *c10Model) enabled(ev c08srvEv, enforce bool) bool {
 		return m.goaway == 0
 	case "GS":
 		return m.goaway == 0 && m.s[0].opened
+	case "BLK":
+		return !m.blocked
+	case "UNB":
+		return m.blocked
+	case "PING":
+		// Only as the frame whose acknowledgement gets stuck in the server's
+		// writer: while the client reads, or after a first one, a PING does
+		// not change any flow-control relevant state.
+		return m.blocked && !m.pinged
 	}
 	return false
 }
@@ -277,6 +416,10 @@ func (m *c10Model) apply(ev c08srvEv) {
 		}
 		m.connView -= fl
 		m.cAvail -= fl
+		if m.blocked {
+			m.dataWhileBlocked(s, ln, fl, end)
+			return
+		}
 		if m.goaway == 2 || !s.table || !s.cliOpen {
 			m.connAdd(fl)
 			if s.table && m.goaway != 2 {
@@ -301,9 +444,10 @@ func (m *c10Model) apply(ev c08srvEv) {
 		s.recv += ln
 		s.buffered += ln
 		m.connAdd(fl - ln)
-		c10mAdd(&s.avail, &s.unsent, &s.view, fl-ln)
+		m.strAdd(s, fl-ln)
 		if end {
 			s.cliOpen = false
+			s.ended = true
 			s.pipeErr = true
 		}
 		m.wake(s)
@@ -324,6 +468,13 @@ func (m *c10Model) apply(ev c08srvEv) {
 	case "DONE", "P":
 		s := idx()
 		s.handler = 3
+		if m.stuck && s.table {
+			// the end of the response (or the RST_STREAM after a panic)
+			// queues; until it is written the stream still accepts DATA
+			s.doneQueued = true
+			return
+		}
+		m.wrote()
 		m.closeStream(s)
 	case "RST":
 		s := idx()
@@ -332,12 +483,22 @@ func (m *c10Model) apply(ev c08srvEv) {
 	case "T":
 		s := idx()
 		s.cliOpen = false
+		s.ended = true
 		s.pipeErr = true
 		m.wake(s)
 	case "G":
 		m.goaway = 2
+		m.wrote()
 	case "GS":
 		m.goaway = 1
+		m.wrote()
+	case "BLK":
+		m.blocked = true
+	case "UNB":
+		m.unblock()
+	case "PING":
+		m.pinged = true
+		m.wrote()
 	}
 }
 
@@ -398,6 +559,7 @@ type c10sResult struct {
 	excessSent       bool
 	fcErrSeen        bool
 	bytesDelivered   int
+	unblocked        int // times the client resumed reading after a BLK period
 }
 
 func c10srvRunCase(w *vx.W, t testing.TB, cs c08srvCase, mode c10sMode) (res c10sResult, harnessErr string) {
@@ -464,6 +626,39 @@ func c10srvRunCase(w *vx.W, t testing.TB, cs c08srvCase, mode c10sMode) (res c10
 	if w.Failed() || env.harnessErr != "" {
 		return
 	}
+
+	// BLK … UNB: the client stops reading. With a receive buffer of 0 every
+	// write of the server blocks: the first frame it produces still fits its
+	// own write buffer, the flush of that buffer gets stuck, and every later
+	// frame waits in the write queue. Nothing the server produces in such a
+	// period is visible to the client (and to the monitor) before UNB.
+	blocked := false
+	var blkKinds map[string]bool // white-box kinds of the DATA frames sent in the current BLK period
+	// unbKind names the UNB event after the most specific kind of DATA the
+	// server had to discard or hold while the client was not reading.
+	unbKind := func() string {
+		for _, k := range []string{"D-while-reset-queued", "D-while-response-end-queued", "D-after-unseen-close"} {
+			if blkKinds[k] {
+				return "UNB-after-" + k
+			}
+		}
+		return "UNB"
+	}
+	unblock := func(ctx string) {
+		blocked = false
+		blkKinds = nil
+		res.unblocked++
+		if nc, ok := env.st.cc.(*synctestNetConn); ok {
+			nc.SetReadBufferSize(math.MaxInt)
+		}
+		for i := 0; i < 64; i++ {
+			n := len(res.trace)
+			step(ctx)
+			if len(res.trace) == n || w.Failed() {
+				break
+			}
+		}
+	}
 	if v, ok := env.srvSettings[SettingInitialWindowSize]; ok {
 		if int64(v) != mon.cfgStr {
 			return res, fmt.Sprintf("server advertised INITIAL_WINDOW_SIZE %d, harness expected %d", v, mon.cfgStr)
@@ -494,6 +689,18 @@ func c10srvRunCase(w *vx.W, t testing.TB, cs c08srvCase, mode c10sMode) (res c10
 			}
 			if !bytes.Equal(got, c08srvPattern(0, len(got))) {
 				w.Failf(P+"delivery/bytes-out-of-order-or-corrupt", "%s: stream %d handler read bytes that are not the prefix of what was sent", ctx, id)
+			}
+		}
+	}
+
+	streamCredit := func(ctx string, ss C08srvStreamSnap) {
+		if ss.State == int(StateOpen) && ss.HasBody && !ss.BodyErr && !ss.ResetQueued {
+			if tot := int64(ss.InAvail) + int64(ss.InUnsent) + int64(ss.BodyLen); tot != mon.cfgStr {
+				kind := "leak"
+				if tot > mon.cfgStr {
+					kind = "over-credit"
+				}
+				w.Failf(P+"stream-credit/"+kind+"/after-"+mon.lastKind, "%s: open stream %d: avail(%d)+unsent(%d)+buffered(%d)=%d, configured stream window %d", ctx, ss.ID, ss.InAvail, ss.InUnsent, ss.BodyLen, tot, mon.cfgStr)
 			}
 		}
 	}
@@ -530,6 +737,24 @@ func c10srvRunCase(w *vx.W, t testing.TB, cs c08srvCase, mode c10sMode) (res c10
 			w.Failf(P+"conn-credit/"+kind+"/after-"+mon.lastKind, "%s: sc.inflow.avail(%d)+unsent(%d)+unread buffered(%d) = %d, configured connection window %d: %d bytes of connection-level credit %s", ctx, snap.ConnInAvail, snap.ConnInUnsent, buffered, total, mon.cfgConn, abs64(total-mon.cfgConn), map[string]string{"leak": "are lost", "over-credit": "were returned twice"}[kind])
 			return
 		}
+		if blocked {
+			// The client is not reading: WINDOW_UPDATEs the server has produced
+			// are not on the wire yet, so the clauses that compare with the
+			// client's view wait until it has resumed reading and drained the
+			// connection (UNB); the white-box clauses do not.
+			if snap.ConnInUnsent >= InflowMinRefresh && snap.ConnInUnsent >= snap.ConnInAvail {
+				w.Failf(P+"conn-credit/withheld-beyond-batching-rule", "%s: unsent=%d avail=%d", ctx, snap.ConnInUnsent, snap.ConnInAvail)
+				return
+			}
+			for _, ss := range snap.Streams {
+				s := mon.streams[ss.ID]
+				if s == nil || s.excess || s.irregular {
+					continue
+				}
+				streamCredit(ctx, ss)
+			}
+			return
+		}
 		// After a GOAWAY with an error code the server stops writing frames
 		// (the connection is being torn down): the wire view is frozen.
 		errGoAway := mon.goaway && mon.goawayCode != ErrCodeNo
@@ -560,19 +785,12 @@ func c10srvRunCase(w *vx.W, t testing.TB, cs c08srvCase, mode c10sMode) (res c10
 			if int64(ss.InAvail) != s.view {
 				w.Failf(P+"stream-window/advertised-differs-from-wire/after-"+mon.lastKind, "%s: stream %d st.inflow.avail=%d but the window advertised on the wire is %d", ctx, ss.ID, ss.InAvail, s.view)
 			}
-			if ss.State == int(StateOpen) && ss.HasBody && !ss.BodyErr && !ss.ResetQueued {
-				if tot := int64(ss.InAvail) + int64(ss.InUnsent) + int64(ss.BodyLen); tot != mon.cfgStr {
-					kind := "leak"
-					if tot > mon.cfgStr {
-						kind = "over-credit"
-					}
-					w.Failf(P+"stream-credit/"+kind+"/after-"+mon.lastKind, "%s: open stream %d: avail(%d)+unsent(%d)+buffered(%d)=%d, configured stream window %d", ctx, ss.ID, ss.InAvail, ss.InUnsent, ss.BodyLen, tot, mon.cfgStr)
-				}
-			}
+			streamCredit(ctx, ss)
 		}
 	}
 
 	nextID := uint32(1)
+	npings := byte(0)
 	for i, es := range cs.Evs {
 		ev, err := c08srvParse(es)
 		if err != nil {
@@ -644,6 +862,32 @@ func c10srvRunCase(w *vx.W, t testing.TB, cs c08srvCase, mode c10sMode) (res c10
 			case pad >= 0:
 				kind = "D-padded"
 			}
+			if blocked && inWin && !env.connClosed {
+				// White-box classification only (outcome statistics and the
+				// situation named in a signature): which state is the stream
+				// in on the server, whose frames the client has not seen?
+				if snap := env.st.sc.C08srvSnapshot(); snap.OK {
+					inTable := false
+					for _, ss := range snap.Streams {
+						if ss.ID != id {
+							continue
+						}
+						inTable = true
+						if ss.ResetQueued {
+							kind = "D-while-reset-queued"
+						} else if call := env.call(id); call != nil && call.returned.Load() {
+							kind = "D-while-response-end-queued"
+						}
+					}
+					if !inTable && s.clientOpen() {
+						kind = "D-after-unseen-close"
+					}
+				}
+				if blkKinds == nil {
+					blkKinds = map[string]bool{}
+				}
+				blkKinds[kind] = true
+			}
 			res.refundPaths[kind] = true
 			data := c08srvPattern(s.sent, int(ln))
 			if !inWin {
@@ -713,6 +957,20 @@ func c10srvRunCase(w *vx.W, t testing.TB, cs c08srvCase, mode c10sMode) (res c10
 				})
 				if s.cliRST || s.srvRST {
 					kind = "R-after-reset"
+				} else if blocked && !call.returned.Load() && !env.connClosed {
+					// The client is not reading and cannot have seen a reset;
+					// white-box: the handler is still running but the server
+					// has removed the stream from its table, which only a
+					// RST_STREAM it generated itself does.
+					if snap := env.st.sc.C08srvSnapshot(); snap.OK {
+						inTable := false
+						for _, ss := range snap.Streams {
+							inTable = inTable || ss.ID == id
+						}
+						if !inTable {
+							kind = "R-after-reset"
+						}
+					}
 				}
 			case "C":
 				s.bodyClosed = true
@@ -757,6 +1015,23 @@ func c10srvRunCase(w *vx.W, t testing.TB, cs c08srvCase, mode c10sMode) (res c10
 				break
 			}
 			env.st.sc.StartGracefulShutdown()
+		case "BLK":
+			nc, ok := env.st.cc.(*synctestNetConn)
+			if blocked || !ok {
+				applied = false
+				break
+			}
+			nc.SetReadBufferSize(0)
+			blocked = true
+		case "UNB":
+			if !blocked {
+				applied = false
+				break
+			}
+			kind = unbKind()
+		case "PING":
+			npings++
+			env.writeErr(env.st.fr.WritePing(false, [8]byte{'c', '1', '0', 0, 0, 0, 0, npings}))
 		default:
 			return res, "unknown event " + es
 		}
@@ -766,7 +1041,11 @@ func c10srvRunCase(w *vx.W, t testing.TB, cs c08srvCase, mode c10sMode) (res c10
 		}
 		res.applied++
 		mon.lastKind = kind
-		step(ctx)
+		if ev.K == "UNB" {
+			unblock(ctx)
+		} else {
+			step(ctx)
+		}
 		if env.harnessErr != "" {
 			return
 		}
@@ -796,6 +1075,20 @@ func c10srvRunCase(w *vx.W, t testing.TB, cs c08srvCase, mode c10sMode) (res c10
 		}
 		if expectFC != nil {
 			break // an out-of-window frame ends the case (the client's view is undefined afterwards)
+		}
+	}
+
+	if blocked && !env.connClosed && !w.Failed() && env.harnessErr == "" {
+		// Never leave a case with the server's writer stuck: the client
+		// resumes reading, and the clauses about its view are evaluated.
+		mon.lastKind = unbKind()
+		unblock("final UNB")
+		if env.harnessErr != "" || w.Failed() {
+			return
+		}
+		quiescent("final UNB")
+		if w.Failed() || env.harnessErr != "" {
+			return
 		}
 	}
 
@@ -881,6 +1174,9 @@ func c10srvCheck(c *vx.Ctx, mode c10sMode) func(w *vx.W, cs c08srvCase) {
 		if res.skipped > 0 {
 			w.Outcome("srv:model-real-disagreement-skipped-event")
 		}
+		if res.unblocked > 0 {
+			w.Outcome("srv:client-stopped-and-resumed-reading")
+		}
 	}
 }
 
@@ -905,7 +1201,7 @@ func c10srvAlphabet(cls []int64, data [][3]int64, reads []int64, extras []string
 		}
 	}
 	for _, k := range extras {
-		if k == "G" || k == "GS" {
+		if k == "G" || k == "GS" || k == "BLK" || k == "UNB" || k == "PING" {
 			a = append(a, c08srvEv{K: k})
 			continue
 		}
